@@ -13,6 +13,17 @@ let err_s (e : Builder.err) = match e with
   | EIndexError -> "IndexError" | EAlignment -> "InstructionAlignmentNotDefined"
   | EEmptyPopulation -> "IndexError" | EValueError -> "ValueError"
 
+let exn_s (e : LogParse.exn) = match e with
+  | LogParse.XMissingAddress -> "MissingAddressException" | XMissingCycle -> "MissingCycleException"
+  | XEnvironment -> "OSError" | XValueError -> "ValueError" | XKeyError -> "KeyError"
+  | XUnboundLocal -> "UnboundLocalError"
+
+let unhex (h : string) : char list =
+  List.init (String.length h / 2) (fun i -> Char.chr (int_of_string ("0x" ^ String.sub h (2 * i) 2)))
+
+let file_of kind hex = match kind with
+  | "A" -> LogParse.FAbsent | "N" -> LogParse.FNotText | _ -> LogParse.FText (unhex (if hex = "-" then "" else hex))
+
 let table_of t = match t with
   | "base" -> GenTables.base_table
   | "rimi" -> Types.dict_union GenTables.rimi_table GenTables.base_table
@@ -77,6 +88,29 @@ let () =
         (match r with
          | Builder.OK l -> print_string ("OK " ^ String.concat " " (List.map (fun g -> string_of_z (Enc.generate g)) l) ^ "\n")
          | Builder.Err e -> print_string ("ERR " ^ err_s e ^ "\n"))
+      | [ "dump"; kind; hex ] ->
+        (match LogParse.parse_dump (file_of kind hex) with
+         | LogParse.Ret d -> print_string (Printf.sprintf "RET %s %s %s %s %s\n"
+             (string_of_z d.LogParse.dd_ok) (string_of_z d.LogParse.dd_start) (string_of_z d.LogParse.dd_end)
+             (string_of_z d.LogParse.dd_ret) (string_of_z d.LogParse.dd_bin_size))
+         | LogParse.Raise e -> print_string ("RAISE " ^ exn_s e ^ "\n"))
+      | [ "log"; core; tbl; sa; ra; kind; hex ] ->
+        let f = file_of kind hex in
+        let ex = (if core = "rocket" then LogParse.rocket_extract (z_of_string sa) (z_of_string ra) f
+                  else LogParse.cva6_extract (z_of_string sa) (z_of_string ra) f) in
+        let t = (match tbl with
+            | "base" -> GenTables.t_runner_table_base | "tramp" -> GenTables.t_runner_table_tramp
+            | "rimiss" -> GenTables.t_runner_table_rimiss | "rimifull" -> GenTables.t_runner_table_rimifull
+            | _ -> GenTables.t_runner_table_fixer) in
+        let t = List.map (fun ((k, ty), cl) -> (k, (ty, cl))) t in
+        let hs h = String.concat "," (List.map (fun (k, v) -> string_of_clist k ^ "=" ^ string_of_z v) h) in
+        (match LogParse.parse_core_log ex t GenTables.t_type_keys GenTables.t_class_keys with
+         | LogParse.Ret e -> print_string (Printf.sprintf "RET %s %s %s %s %s %s %s %s %s\n"
+             (string_of_z e.LogParse.e_emulation_ok) (string_of_z e.LogParse.e_seed)
+             (string_of_z e.LogParse.e_start_cycle) (string_of_z e.LogParse.e_end_cycle)
+             (string_of_z e.LogParse.e_nb_cycles) (string_of_z e.LogParse.e_tracing_ok)
+             (string_of_z e.LogParse.e_instrs_nb) (hs e.LogParse.e_instrs_type) (hs e.LogParse.e_instrs_class))
+         | LogParse.Raise e -> print_string ("RAISE " ^ exn_s e ^ "\n"))
       | _ -> print_string "BAD\n")
     done
   with End_of_file -> ()
